@@ -156,7 +156,8 @@ theorem walk_within (stack : List FsNode) (cur : FsNode) (segs : List Bytes)
           · cases hw
           · split at hw
             · cases hw
-            · rename_i child hl
+            · cases hw
+            · rename_i child _ hl
               obtain ⟨hwi, ext, he⟩ := ih (cur :: stack) child hrest hw
               refine ⟨Within.trans (Within.child cur cur seg child (Within.refl _) hl) hwi,
                 ext ++ [cur], ?_⟩
